@@ -9,6 +9,8 @@ var (
 		Text: "every Compiler.emit / MakeInstruction call with a determinable opcode passes exactly len(OpcodeOperands[op]) operands"}
 	rCODEC3 = &Rule{Name: "CODEC.3", Floor: 48, Fn: ruleCODEC3,
 		Text: "per VM arm (abstract interpretation of ip relative to the opcode byte): every operand byte read belongs to a whole operand and is combined with the shift MakeInstruction wrote it at; every operand is decoded; every fall-through path advances ip by exactly the operand widths; MakeInstruction/ReadOperands are big-endian inverses"}
+	rCODEC4 = &Rule{Name: "CODEC.4", Floor: 60, Fn: ruleCODEC4,
+		Text: "every operand narrower than 4 bytes at every emit site is a constant that fits, a flag variable, dominated by a comparison that bounds the same expression, or belongs to a class whose bound is established elsewhere and re-checked (locals <= 256 where NumLocals is fixed, captures <= 255 at the closure site, constants <= 65536 in the file arm, builtin table size, GlobalsSize, StackSize) - MakeInstruction truncates silently"}
 	rCODEC5 = &Rule{Name: "CODEC.5", Floor: 8, Fn: ruleCODEC5,
 		Text: "opcode classes extracted from the VM arms (jump / constant-index / never-fall-through) equal the sets hard-coded in optimizeFunc and updateConstIndexes; jump arms set ip = target-1"}
 	rIMM1 = &Rule{Name: "IMM.1", Floor: 3, Fn: ruleIMM1,
@@ -79,7 +81,7 @@ var (
 		Text: "RET.1/FRAME.1: function bodies are compiled, then optimised/terminated, then captured; NumLocals/NumParameters/VarArgs/capture list come from the function's own table and signature before the scope is left; main ends in a never-fall-through opcode; optimizeFunc appends the final return"}
 	rOPT = &Rule{Name: "OPT", Floor: 5, Fn: ruleOPT,
 		Text: "OPT.1 offsets looked up in the old→new position map are used verbatim (jump operands, source-map keys), a jump to the old end maps to the new end; OPT.2 the map is filled with len(new) right before each instruction is appended; OPT.3 jump destinations end dead regions"}
-	rTAIL = &Rule{Name: "TAIL", Floor: 9, Fn: ruleTAIL,
+	rTAIL = &Rule{Name: "TAIL", Floor: 10, Fn: ruleTAIL,
 		Text: "TAIL.1 the frame-reuse predicate, evaluated over all opcode pairs, is true only when the call is followed by RET or POP;RET and always when followed by RET, with look-ahead offsets derived from the operand widths; TAIL.2 the reuse path is guarded by callee == running function, writes no frame state, copies arguments directly into the parameter slots, resets sp/ip, and precedes the frame push; TAIL.3 the compiler emits RET 1 right after a returned expression and nothing after the right operand of &&/||"}
 	rMOD = &Rule{Name: "MOD", Floor: 18, Fn: ruleMOD,
 		Text: "MOD.1 a module is compiled against NewSymbolTable()+builtins forked as a function scope, by a child compiler with nil constants/parent set, constants added at the root; MOD.2 the cyclic-import check is compileModule's first statement and walks the whole parent chain; MOD.3 cache lookup → parse → compile → store, at the root; MOD.4 source imports compile to CONST fn; CALL 0 0; MOD.5 file-system calls only under the allowFileImport flag (who-may-call), flag written only by EnableFileImport/fork, module map consulted first, Script default off"}
@@ -145,6 +147,14 @@ var (
 		Text: "every Run/Abort in the methods of *Compiled acts on a VM made by NewVM in the same call, and Compiled holds no VM: no VM state (abort flag, stored error, stack, frames) survives from one run into the next"}
 	rNILFIELD = &Rule{Name: "NILFIELD", Floor: 4, Fn: ruleNILFIELD,
 		Text: "every AST pointer field that the compiler dereferences without a nil guard is definitely assigned (constructed, parsed, or assigned on every path from a nil declaration) at every node construction site in the parser"}
+	rFMT5 = &Rule{Name: "FMT.5", Floor: 5, Fn: ruleFMT5,
+		Text: "every temporary override of a formatter flag (zero, sharp, …) outside the directive parser is restored from its saved value on every path (save/restore pairing)"}
+	rLOCALTS = &Rule{Name: "LOCALTS", Floor: 4, Fn: ruleLOCALTS,
+		Text: "typestate of local slots: GETLP and SETL on a local are emitted only behind a test of Symbol.LocalAssigned that defines the slot (DEFL) first when it is not yet assigned; LocalAssigned only ever becomes true"}
+	rPORT1 = &Rule{Name: "PORT.1", Floor: 3, Fn: rulePORT1,
+		Text: "text.replace's size-limited re-implementation keeps the cursor logic of the reference strings.Replace: replacement count, match location / advance over an empty pattern, and continuation point are alpha-identical to the building toolchain's strings.Replace"}
+	rSEARCH1 = &Rule{Name: "SEARCH.1", Floor: 2, Fn: ruleSEARCH1,
+		Text: "the position→file lookup is `last file with Base <= x`: searchFiles is sort.Search over Base > x minus one (or a clone of its documented sibling searchInts), and both containment tests are Base <= p <= Base+Size"}
 )
 
 func allProperties() []*Property {
@@ -152,11 +162,11 @@ func allProperties() []*Property {
 		{ID: "C01",
 			Decided:    "compiler, generic codec, opcode tables and every VM arm agree byte for byte on the instruction format.",
 			NotDecided: "the language semantics themselves (values computed by operators, control flow, scoping, builtins).",
-			Rules:      []*Rule{rCODEC1, rCODEC2, rCODEC3, rFRESH, rOPARM, rOPDOC, rSEM, rIDX1, rTWIN1, rFAM1}},
+			Rules:      []*Rule{rCODEC1, rCODEC2, rCODEC3, rCODEC4, rFRESH, rOPARM, rOPDOC, rSEM, rIDX1, rTWIN1, rFAM1}},
 		{ID: "C02",
 			Decided:    "instruction format agreement; opcode-class agreement.",
 			NotDecided: "stack balance and jump well-formedness for all compiled programs.",
-			Rules:      []*Rule{rCODEC1, rCODEC2, rCODEC3, rCODEC5, rJMP1, rJMP2, rRET1, rSCOPE1}},
+			Rules:      []*Rule{rCODEC1, rCODEC2, rCODEC3, rCODEC4, rCODEC5, rJMP1, rJMP2, rRET1, rSCOPE1}},
 		{ID: "C03",
 			Decided:    "the optimizer's notion of jump / terminator is the VM's (opcode classes extracted from the VM arms).",
 			NotDecided: "equivalence of optimised and unoptimised code for all programs.",
@@ -196,7 +206,7 @@ func allProperties() []*Property {
 		{ID: "C11",
 			Decided:    "the three variable families' selector-assignment arms are clones; operand decoding of all Local/Free/Global opcodes agrees with the encoder.",
 			NotDecided: "the metamorphic relation itself (needs executing transformed programs).",
-			Rules:      []*Rule{rFAM1, rCODEC3}},
+			Rules:      []*Rule{rFAM1, rLOCALTS, rCODEC3}},
 		{ID: "C13",
 			Decided:    "module bodies are compiled against a fresh builtin-only table; the cycle check dominates and walks the import stack; compile-once ordering at the root cache; import = CONST+CALL; exported values pass OpImmutable; file APIs are confined behind the permission flag.",
 			NotDecided: "termination and the exact success condition over all import graphs as a run-time fact.",
@@ -204,7 +214,7 @@ func allProperties() []*Property {
 		{ID: "C14",
 			Decided:    "sentinel and host errors survive to the caller wrapped with %w; every instruction gets a source position keyed by its own offset, kept consistent through the optimizer; call-site ips are saved before frame switches and looked up innermost first.",
 			NotDecided: "that a reported position lies within the failing statement (depends on per-opcode ip bookkeeping and each program's source map).",
-			Rules:      []*Rule{rERR, rPOS1, rOPT}},
+			Rules:      []*Rule{rERR, rPOS1, rOPT, rSEARCH1}},
 		{ID: "C16",
 			Decided:    "the VM's tail-call predicate is exactly 'next is RET or POP;RET'; the reuse path grows no frame and overwrites parameter slots directly; the compiler places RET directly after the documented tail positions.",
 			NotDecided: "that deep recursion terminates with the right value.",
@@ -212,7 +222,7 @@ func allProperties() []*Property {
 		{ID: "C17",
 			Decided:    "all output goes through writers guarded by MaxStringLen; explicit panics are the limit error or proven unreachable; width/precision are bounded; printer pooling hygiene; verb dispatch, flag parsing and the verbatim-ported helpers agree with the building toolchain's fmt.",
 			NotDecided: "equality with fmt.Sprintf for all inputs (the non-identical parts of the port: fmtInteger, fmtFloat, fmtC, padding, doFormat's argument handling); implicit index panics inside digit loops.",
-			Rules:      []*Rule{rLIMIT2, rFMT1, rFMT2, rFMT3, rFMT4}},
+			Rules:      []*Rule{rLIMIT2, rFMT1, rFMT2, rFMT3, rFMT4, rFMT5}},
 		{ID: "C18",
 			Decided:    "the validity automaton equals encoding/json's state by state; validate-before-decode; number typing by '.', 'e', 'E'; escape tables equal the reference's; encoder arms for all named types.",
 			NotDecided: "round-trip equality of values; number and string values after decoding; float formatting.",
@@ -220,7 +230,7 @@ func allProperties() []*Property {
 		{ID: "C19",
 			Decided:    "the wiring of the stdlib modules: adapters do what their function type says; table keys name the Go function/constant they wrap; hand-written wrappers call the function their key names with arguments in order; documentation and tables agree; generated source is in sync.",
 			NotDecided: "the Go functions' results (they are the specification); value-level behaviour of hand-written wrappers (size limits, defaults).",
-			Rules:      []*Rule{rADPT1, rADPT2, rADPT3, rADPT4, rADPT5}},
+			Rules:      []*Rule{rADPT1, rADPT2, rADPT3, rADPT4, rADPT5, rPORT1}},
 		{ID: "C20",
 			Decided:    "documented precedence = implemented precedence with left-associative climbing; literal conversion is delegated to strconv on the token text; compound printers are self-delimiting and complete; the semicolon-insertion token set; every operator token the parser can produce is compiled to its own operator.",
 			NotDecided: "the re-parse/re-compile equality as a fact about all programs; literal values (delegated to strconv, trusted); comment/whitespace layouts.",
